@@ -256,6 +256,22 @@ def r35_forced_closure(ctx):
             ctx.note(R, 'rule %s is parametric (not in the statutory list of the property)' % nm)
 
 
+def rule_ctor_names(init):
+    """(name of the local holding the rule class, name of the local holding the rule name) in Election.__init__:
+    `self.rule = X(self)` with `X = electionRule(N)`"""
+    for n in init.own_nodes():
+        if isinstance(n, ast.Assign) and len(n.targets) == 1 and unparse(n.targets[0]) == 'self.rule' and isinstance(n.value, ast.Call) \
+                and isinstance(n.value.func, ast.Name):
+            x = n.value.func.id
+            for m in init.own_nodes():
+                if isinstance(m, ast.Assign) and len(m.targets) == 1 and isinstance(m.targets[0], ast.Name) and m.targets[0].id == x \
+                        and isinstance(m.value, ast.Call) and unparse(m.value.func) == 'electionRule' and len(m.value.args) == 1 \
+                        and isinstance(m.value.args[0], ast.Name):
+                    return x, m.value.args[0].id
+            return x, None
+    return None, None
+
+
 def r36_construction_order(ctx):
     R = 'R36'
     repo = ctx.repo
@@ -293,7 +309,9 @@ def r36_construction_order(ctx):
                   'options embedded in the ballot file are merged into the file layer', 'update(..., file_options=True)',
                   'profile options are merged without file_options=True: they land in the command layer and override the caller')
     merge = sorted(pm, key=lambda x: x.line)[-1]      # the LAST merge of profile options must still precede the rule
-    mk_rule = find(lambda c: isinstance(c.func, ast.Name) and c.func.id == 'Rule', 'Rule(self)')
+    rc_name, rn_name = rule_ctor_names(init)
+    need(rc_name is not None, 'R36: `self.rule = <RuleClass>(self)` not found in Election.__init__')
+    mk_rule = find(lambda c: isinstance(c.func, ast.Name) and c.func.id == rc_name, 'Rule(self)')
     rule_opts = find(lambda c: unparse(c.func) == 'self.rule.options', 'self.rule.options()')
     arith = find(lambda c: unparse(c.func).endswith('ArithmeticClass'), 'values.ArithmeticClass(self.options)')
     cands = find(lambda c: isinstance(c.func, ast.Name) and c.func.id == 'Candidates', 'Candidates(self)')
@@ -311,7 +329,7 @@ def r36_construction_order(ctx):
               'ArithmeticClass is not given self.options')
     # rulename is read through getopt (layered), not from one layer
     rn = [n for n in init.own_nodes() if isinstance(n, ast.Assign) and isinstance(n.targets[0], ast.Name)
-          and n.targets[0].id == 'rulename']
+          and n.targets[0].id == rn_name]
     ctx.check(len(rn) == 1 and unparse(rn[0].value) == "options.getopt('rule')", R, rn[0] if rn else init.node, init,
               'the rule is selected through the layered getopt', "rulename = options.getopt('rule')",
               'the rule name is not read through getopt')
